@@ -212,6 +212,8 @@ def replay_trigger(pre, m, new_state, new_cancelled, name):
 def run(R):
     R.assume(*COMMON_ASSUMPTIONS)
     trigger_step(R)
+    from vt.sqlsym.seqcheck import sqlite_validation
+    sqlite_validation(R, model.Sizes(J=3, G=2, U=2, I=1, A=2, T=2, IC=1), 2, 1)
     quick = R.tier == 'quick'
     sizes = model.Sizes(J=3, G=2, U=2, I=1, A=2, T=2, IC=1) if quick else model.Sizes(J=3, G=3, U=2, I=2, A=2, T=2, IC=1)
     depth = 2
